@@ -548,11 +548,8 @@ def gen_greedy_thick(rng, N):
         perm = list(range(n))
         rng.shuffle(perm)
         for i in range(1, n):
-            E[(min(perm[rng.randrange(i)], perm[i]), max(perm[rng.randrange(i)], perm[i]))] = m
-        E = {e: k for e, k in E.items() if e[0] != e[1]}
-        comp_ok = len({x for e in E for x in e}) == n
-        if not comp_ok:
-            E = {(i, i + 1): m for i in range(n - 1)}
+            j = perm[rng.randrange(i)]
+            E[(min(j, perm[i]), max(j, perm[i]))] = m          # a random tree: connected
         v = rng.randrange(n)
         val = sum(k for e, k in E.items() if v in e)
         nb = sum(1 for e in E if v in e)
